@@ -19,7 +19,11 @@ EXPLANATION = (
     "(5) every literal pair list handed to reglue is a perfect matching of a set of chambers that is closed under the old operation "
     "(existing chambers: each re-paired chamber's old partner is re-paired too, words compared modulo d.i.i = d and d.i.j = d.j.i for |i-j| > 1; "
     "freshly grown chambers: each listed exactly once) - otherwise the operation stops being an involution and build_set panics; "
-    "(6) fix_local_2_vertex squeezes only faces not glued to each other; (7) the frozen loop structure (T10) and the stale-snapshot lint (T11) of simplify.rs, cutsets.rs and fundamental_group.rs. NOT decided: "
+    "(6) fix_local_2_vertex squeezes only faces not glued to each other; (6a) cut_face / cut_tile, evaluated symbolically on their pair lists (size 100; cut lengths "
+    "2, 4, 6): grow appends fixed points, every operation is defined exactly once on every fresh chamber, re-paired old chambers are closed under the old operation, "
+    "and the operation pairs (0,2), (0,3), (1,3) commute at the fresh chambers wherever the walk stays among chambers the primitive names; (6b) collapse writes its two "
+    "renumbering maps as inverses over the kept chambers, re-routes by e = e.connector.i exactly while e is removed, builds size - |remove| chambers, and at each of its "
+    "five call sites removes a union of orbits of the D-set it collapses under an index set containing the connector (table of connectors: facet 3, edge of degree 2: 2); (7) the frozen loop structure (T10) and the stale-snapshot lint (T11) of simplify.rs, cutsets.rs and fundamental_group.rs. NOT decided: "
     "that any move or merge preserves the manifold/its fundamental group, sphericity of tiles and vertex figures, absence of panics on "
     "pseudo-toroidal covers, canonical-form invariance under renumbering -- these quantify over the topology of the rewriting system and "
     "have no necessary condition visible in the shape of the code.")
@@ -640,6 +644,81 @@ def collapse_shape(ctx, g):
            "size() - remove.len() chambers; e = d.i, while removed e = e.connector.i (i != connector), answer src2img[e]" if not bad else bad)
 
 
+def collapse_sites(ctx, g):
+    """collapse(ds, remove, connector) gives kept chambers whose connector-neighbour was removed the image 0 (no chamber): the removed set has
+    to be closed under the connector operation.  At every call the removed set is a union of orbit(indices, .) of THE SAME D-set with
+    connector in indices; merge_tiles / merge_facets additionally select, walk and connect with the same indices"""
+    ctx.clauses.append("every collapse removes a union of orbits (of the D-set it collapses) under an index set that contains the connector (T9)")
+    n = 0
+    for fn in ("merge_tiles", "merge_facets", "fix_local_1_vertex", "fix_local_2_vertex", "split_and_glue_attempt"):
+        b = ctx.body(M + fn)
+        ctx.scan(ctx.facts.with_closures(b.name))
+        for bi, t in b.calls(exact=M + "collapse"):
+            n += 1
+            target = strip(norm(b.origin(t["args"][0]), g))
+            if target[0] == "agg" and target[1].endswith("DSetOrEmpty::DSet"):
+                target = strip(target[2][0])
+            rem = norm(b.origin(t["args"][1]), g)
+            con = eval_int(norm(b.origin(t["args"][2]), g))
+            orbits = []
+            filters = []
+            reps = []
+            for x in subterms(rem):
+                if not isinstance(x, tuple) or not x:
+                    continue
+                if is_call(x, "DSet::orbit_reps"):
+                    reps.append(x)
+                elif is_call(x, "DSet::orbit"):
+                    orbits.append(x)
+                elif x[0] == "agg" and closure_parts(x):
+                    r = closure_result(ctx.facts, x, g)
+                    if r is None:
+                        continue
+                    r = strip(r)
+                    if is_call(r, "DSet::orbit"):
+                        orbits.append(r)
+                    else:
+                        filters.append(r)
+            bad = None
+            if con is None or not orbits:
+                bad = "removed set is not built from DSet::orbit / connector not a literal"
+            # which neighbour takes over: across a removed facet (3-orbits; the whole [0,1,3] disk of a squeezed face) the walk continues in the
+            # neighbouring tile (3); across a removed edge of degree 2 it continues on the other face of the SAME tile (2) - with 3 there it would glue
+            # the wrong tiles together
+            want = {"merge_tiles": 3, "merge_facets": 2, "fix_local_1_vertex": 3, "fix_local_2_vertex": 3, "split_and_glue_attempt": 3}[fn]
+            if not bad and con != want:
+                bad = "%s re-routes through operation %s; removing %s needs %s" % (fn, con, "an edge of degree 2" if want == 2 else "a facet", want)
+            for o in orbits:
+                recv = strip(o[2][0])
+                if recv[0] == "variant" or (recv[0] == "field" and strip(recv[1])[0] == "variant"):
+                    recv_ok = strip(recv) == target or (target[0] == "param" and contains(recv, lambda y: y == target))
+                else:
+                    recv_ok = recv == target
+                idx = strip(o[2][1])
+                ids = [eval_int(z) for z in idx[2]] if idx[0] == "agg" else [None]
+                if None in ids:
+                    bad = bad or "orbit indices not literal"
+                elif con not in ids:
+                    bad = bad or "the removed set is a union of %s-orbits but the connector is %s: a kept chamber whose %s-neighbour is removed is mapped to chamber 0" % (ids, con, con)
+                if not recv_ok:
+                    bad = bad or "the removed orbit is computed in %s but %s is collapsed" % (show(recv, 1)[:30], show(target, 1)[:30])
+            if fn == "merge_tiles" and not bad:
+                ok = any(f[0] == "binop" and f[1] == "Eq" and eval_int(f[3]) == con and strip(f[2])[0] == "field" and strip(f[2])[2] == "1" for f in filters)
+                ids = [eval_int(z) for z in strip(orbits[0][2][1])[2]]
+                if not ok or ids != [con]:
+                    bad = "merge_tiles does not select inner edges of index %s and remove their [%s]-orbits (filters %s, orbit indices %s)" % (con, con, [show(f, 1)[:30] for f in filters], ids)
+            if fn == "merge_facets" and not bad:
+                ids = [eval_int(z) for z in strip(orbits[0][2][1])[2]]
+                rid = [[eval_int(z) for z in strip(r_[2][1])[2]] for r_ in reps]
+                fl = [f for f in filters if f[0] == "binop" and f[1] == "Eq" and is_call(strip(f[2]), M + "r") and eval_int(f[3]) == 2]
+                fid = [[eval_int(z) for z in strip(f[2])[2][1:3]] for f in fl]
+                if rid != [ids] or fid != [ids]:
+                    bad = "merge_facets: representatives %s, degree test %s and removed orbits %s do not use one index pair with r == 2" % (rid, fid, ids)
+            ctx.ob("T9-collapse-sites", b.name, "collapse(.., %s)" % con, "ok" if not bad else "violation",
+                   "removed: orbits under %s of the collapsed D-set, connector %s among them" % ([[eval_int(z) for z in strip(o[2][1])[2]] for o in orbits], con) if not bad else bad, b.span_of(bi))
+    ctx.floor("collapse call sites", n, 5)
+
+
 def in_loop(body, bb):
     return any(bb in blocks for h, blocks in natural_loops(body))
 
@@ -840,5 +919,6 @@ def run(ctx):
     cut_tables(ctx, g)
     grow_shape(ctx, g)
     collapse_shape(ctx, g)
+    collapse_sites(ctx, g)
     for bi, t in mi:
         every_iteration_reaches(ctx, "T3-merge-every-step", ma, bi, "step-loop->op(&ds)", "some step of merge_all's table is skipped")
